@@ -483,6 +483,9 @@ def candidate_names(case):
     return out
 
 
+TIMEOUTS = {"n": 0}       # confirmed hangs of the real pdsh in this run
+
+
 def run_real(cli, case, mode="exec"):
     """mode exec: `pdsh -R exec -f 1 -N OPTIONS echo %h` — the hosts really contacted, in order;
        mode list: `pdsh -Q OPTIONS` — the target list pdsh would go on with (no host is contacted; 40 times cheaper).
@@ -499,11 +502,17 @@ def run_real(cli, case, mode="exec"):
             return p.returncode, p.stdout, p.stderr
         except subprocess.TimeoutExpired as e:
             return "timeout", e.stdout or b"", e.stderr or b""
-    rc, out, err = go(case.timeout)
+    if TIMEOUTS["n"] >= 3:
+        # pdsh has hung three times in this run (each time confirmed by a long second wait): from now on one short
+        # wait per case, so that a tree that spins does not make the run take hours
+        rc, out, err = go(4)
+    else:
+        rc, out, err = go(case.timeout)
+        if rc == "timeout":
+            # a loaded machine is not a spinning pdsh: ask again with plenty of time
+            rc, out, err = go(max(case.timeout * 6, 30))
     if rc == "timeout":
-        # a loaded machine is not a spinning pdsh: ask again with plenty of time
-        rc, out, err = go(max(case.timeout * 6, 30))
-    if rc == "timeout":
+        TIMEOUTS["n"] += 1
         return "timeout", None, b""
     if rc == 0 and mode == "exec":
         return "ok", [l.decode("latin1") for l in out.split(b"\n") if l], err
@@ -929,6 +938,10 @@ def run(ctx):
             ctx.broken.append(("C-BROKEN", "check machinery", repr(e)))
             pres, cases = [], []
         for case, prof, pre in zip(cases, profs, pres):
+            if TIMEOUTS["n"] >= 25:
+                ctx.broken.append(("C-BROKEN", "real pdsh", "pdsh did not answer 25 times in this run (each reported as an "
+                                   "offender): the remaining %d cases were not executed" % (len(cases) - cov["evaluations"])))
+                break
             cov["evaluations"] += 1
             dist["profiles"][prof] = dist["profiles"].get(prof, 0) + 1
             try:
